@@ -9,7 +9,8 @@ def options(**kw):
   boot.load()
   from pytype import config
   kw.setdefault("python_version", (3, 12))
-  return config.Options.create(**kw)
+  input_filename = kw.pop("input_filename", None)
+  return config.Options.create(input_filename, **kw)
 
 
 class Result:
